@@ -163,6 +163,26 @@ def gen(rng, tier):
             ex.append({"op": "todo", "files": [{"path": "e.py", "content": marker + body + closer}], "filters": [".py"]})
             ex.append({"op": "todo", "files": [{"path": "e.py", "content": "x = 1 " + marker + body + closer + "\n"}], "filters": [".py"]})
     shards.append(ex)
+    # real-world sources, when they are on this machine (Go toolchain source in the module cache, the Python standard library, the Java
+    # sources shipped with Isabelle): the model must agree with the real scan on them, nothing may crash, and every reported line must be
+    # a line that carries the word TODO/FIXME
+    import glob
+    import os
+    pools = [(".go", "/root/go/pkg/mod/golang.org/toolchain@*/src/**/*.go"), (".py", "/root/.pyenv/versions/*/lib/python3*/**/*.py"),
+             (".java", "/opt/veriftools/tlapm/lib/tlapm/backends/Isabelle/**/*.java")]
+    per = 24 if tier == "quick" else 1500
+    real = []
+    for ext, pat in pools:
+        fs = sorted(f for f in glob.glob(pat, recursive=True) if os.path.isfile(f) and os.path.getsize(f) < 40000)
+        rng.shuffle(fs)
+        for f in fs[:per]:
+            try:
+                text = open(f, encoding="utf-8").read()
+            except (OSError, UnicodeDecodeError):
+                continue
+            real.append({"op": "todo", "files": [{"path": "real" + ext, "content": text}], "filters": [ext], "source": f})
+    for i in range(0, len(real), 100):
+        shards.append(real[i:i + 100])
     return shards
 
 
@@ -170,6 +190,15 @@ def oracle(case, out, raw):
     if out is None or "panic" in out:
         return [("panic", "todo scan panicked at %s: %s on %r" % ((raw or {}).get("site"), (raw or {}).get("panic"), case["files"][0]["content"][:60]))]
     ds = []
+    if "source" in case:
+        lines = case["files"][0]["content"].split("\n")
+        for t in out["todos"]:
+            # the reported line is where the comment starts: a comment marker on it is followed, after blanks (a block comment may
+            # continue on the next lines), by the word
+            ln = lines[t["Line"] - 1] if 0 < t["Line"] <= len(lines) else ""
+            rest = "\n".join(lines[t["Line"] - 1:t["Line"] + 40]) if ln else ""
+            if not re.search(r"(//|/\*|#)\s*(todo|fixme)", rest, re.I) or not re.search(r"//|/\*|#", ln):
+                ds.append(("todo-line-without-marker", "%s: reported line %d %r starts no TODO/FIXME comment" % (case["source"], t["Line"], ln[:80])))
     if "expected" not in case:
         return ds
     got = [(t["Filename"], t["Line"], t["Assignee"], norm_msg(t["Message"])) for t in out["todos"]]
@@ -188,7 +217,8 @@ def nontrivial(case, mo):
 RULE = ("files built from segments with ground truth: code tokens (incl. '/', '*', '/=' operators, TODO identifiers), string/char/template literals containing "
         "comment markers and TODO, line/block/hash comments with TODO/FIXME texts in any case, with/without colon and '(assignee)', multi-line blocks, "
         "non-TODO comments, CRLF, unterminated block at EOF, several files with selected and unselected extensions; a malformed stream (character soup of "
-        "quotes, backslashes, markers); every comment shape alone at end of file; non-trivial = at least one todo reported")
+        "quotes, backslashes, markers); every comment shape alone at end of file; real-world Go / Python / Java files found on this machine (24 / 1500 "
+        "per language: model == real scan, no crash, reported lines start a TODO/FIXME comment); non-trivial = at least one todo reported")
 ASSUMPTIONS = ["block comments are written /* ... */ (javadoc '/**' starts its text with '*', which is not TODO)",
                "letters whose upper case is ASCII but which are not ASCII themselves (dotless i, long s) are not generated",
                "messages are compared up to blanks, '*' and '/' (the statement does not fix how continuation lines are joined)"]
